@@ -308,17 +308,21 @@ class Lexer {
   }
 
   Token readToken() {
-    // Skip whitespace.
-    while (std::isspace(lastChar)) {
-      if (lastChar == '\n') {
-        currentLineNumber++;
-        currentCharNumber = 0;
-        currentLine.clear();
+    // Skip whitespace and comments (iteratively, any number of them may
+    // precede the next token).
+    while (true) {
+      while (std::isspace(lastChar)) {
+        if (lastChar == '\n') {
+          currentLineNumber++;
+          currentCharNumber = 0;
+          currentLine.clear();
+        }
+        readChar();
       }
-      readChar();
-    }
-    // Comment.
-    if (lastChar == '|') {
+      if (lastChar != '|') {
+        break;
+      }
+      // Comment.
       do {
         readChar();
       } while (lastChar != EOF && lastChar != '\n');
@@ -328,7 +332,6 @@ class Lexer {
         currentLine.clear();
         readChar();
       }
-      return readToken();
     }
     // Identifier.
     if (std::isalpha(lastChar)) {
@@ -1254,6 +1257,24 @@ public:
 class Parser {
   Lexer &lexer;
 
+  /// The nesting depth of the expression or statement being parsed. It is
+  /// bounded so that the recursion of the parser, and of every later pass over
+  /// the tree, cannot exhaust the stack.
+  static const size_t MAX_NESTING_DEPTH = 1000;
+  size_t nestingDepth;
+
+  /// A scope guard to track the nesting depth.
+  struct NestingScope {
+    Parser &parser;
+    NestingScope(Parser &parser) : parser(parser) {
+      if (parser.nestingDepth >= MAX_NESTING_DEPTH) {
+        throw Error(parser.lexer.getLocation(), "expressions or statements nested too deeply");
+      }
+      parser.nestingDepth++;
+    }
+    ~NestingScope() { parser.nestingDepth--; }
+  };
+
   /// Expect the given last token, otherwise raise an error.
   void expect(Token token) const {
     if (token != lexer.getLastToken()) {
@@ -1286,6 +1307,7 @@ class Parser {
   ///   <binary-op> <element> <binary-op>
   ///   <element>
   std::unique_ptr<Expr> parseBinOpRHS(Token op) {
+    NestingScope nestingScope(*this);
     auto location = lexer.getLocation();
     auto element = parseElement();
     if (isAssociative(op) && op == lexer.getLastToken()) {
@@ -1352,6 +1374,7 @@ class Parser {
   ///   "(" ")"
   ///   "(" <expr> ")"
   std::unique_ptr<Expr> parseElement() {
+    NestingScope nestingScope(*this);
     auto location = lexer.getLocation();
     switch (lexer.getLastToken()) {
     case Token::IDENTIFIER: {
@@ -1543,6 +1566,7 @@ class Parser {
   ///   <identifier> "(" <expr-list> ")"
   ///   <number> "(" [ <expr-list> ")"
   std::unique_ptr<Statement> parseStatement() {
+    NestingScope nestingScope(*this);
     auto location = lexer.getLocation();
     switch (lexer.getLastToken()) {
     case Token::SKIP:
@@ -1649,7 +1673,7 @@ class Parser {
   }
 
 public:
-  Parser(Lexer &lexer) : lexer(lexer) {}
+  Parser(Lexer &lexer) : lexer(lexer), nestingDepth(0) {}
 
   std::unique_ptr<Program> parseProgram() {
     lexer.getNextToken();
